@@ -636,3 +636,88 @@ class LastOccurrenceLemmas(Contract):
         claim = lambda k: z3.ForAll([b], z3.Implies(z3.And(0 <= b, b < k), last(k, V[b]) == b))  # noqa: E731
         return [("last-is-own-index:base", z3.Implies(defn, claim(z3.IntVal(0)))),
                 ("last-is-own-index:step", z3.Implies(z3.And(defn, distinct, 0 <= m, m < n, claim(m)), claim(m + 1)))]
+
+
+# ============================================================================ Part 2: algebra over an abstract matrix ring
+from pyvc.plug_np_c07 import (LSF, TRing, ext_q, madd, mcol, minv, mmul, mneg, mrow, msolve, mtr, ncols, nrows, ring_axioms)  # noqa: E402
+from pyvc.values import TObj  # noqa: E402
+
+LP = "gemseo.algos.linear_solvers.linear_problem.LinearProblem"
+MATS = TDict(TStr, TRing)
+JACS = TDict(TStr, TRing, ordered=True)
+schema(LP, {"lhs": TRing, "rhs": TRing, "solution": TRing})
+schema(CS, {"n_linear_resolutions": TInt, "n_direct_modes": TInt, "n_adjoint_modes": TInt, "lu_fact": TInt, "_CoupledSystem__linear_solver_factory": LSF,
+            "linear_problem": TObj(LP)})
+
+
+def closed_form(dfdx, dfdy, drdy, drdx):
+    """dF/dx - dF/dy (dR/dy)^-1 dR/dx: the implicit-function expression of the total derivative."""
+    return madd(dfdx, mmul(dfdy, mneg(mmul(minv(drdy), drdx))))
+
+
+def mterm(v):
+    return v.obj.term
+
+
+def ring_named():
+    return [(f"matrix ring (assumed textbook identity): {l}", f) for l, f in ring_axioms()]
+
+
+def functions_known(c, *dicts):
+    i = z3.Int("i!fk")
+    F = c.old.functions
+    return z3.ForAll([i], z3.Implies(in_range(i, F.n), z3.And(*[d.has(F.elems[i]) for d in dicts])), patterns=[F.elems[i]])
+
+
+def _direct_inv0(c, k):
+    """Column j < k of dy_dx is the solution of (dR/dy) y_j = -(dR/dx)_j."""
+    A, B = mterm(c.old.dres_dy), mterm(c.old.dres_dx)
+    DY = mterm(c.locals["dy_dx"])
+    j = z3.Int("j!d0")
+    return [("shape", z3.And(nrows(DY) == c.old.n_couplings, ncols(DY) == c.old.n_variables)),
+            ("columns-solved", z3.ForAll([j], z3.Implies(in_range(j, k), mcol(DY, j) == msolve(A, mneg(mcol(B, j)))), patterns=[mcol(DY, j)])),
+            ("system-matrix-kept", mterm(c.new.self.linear_problem.lhs) == A),
+            ("resolutions-counted", c.new.self.n_linear_resolutions == c.old.self.n_linear_resolutions + k)]
+
+
+def _direct_inv1(c, k):
+    F, jac = c.old.functions, c.locals["jac"]
+    DY = mterm(c.locals["dy_dx"])
+    i = z3.Int("i!d1")
+    f = F.elems[i]
+    return [("jacobians-so-far", z3.ForAll([i], z3.Implies(in_range(i, k), z3.And(jac.has(f), jac.vals[f] == madd(c.old.dfun_dx.vals[f], mmul(c.old.dfun_dy.vals[f], DY)))), patterns=[F.elems[i]]))]
+
+
+@register
+class DirectMode(Contract):
+    """Direct mode: one linear system per variable; jac[f] = dF_f/dx - dF_f/dy (dR/dy)^-1 dR/dx for every requested function."""
+
+    targets = (CS + "._direct_mode",)
+    prop = ("C07",)
+    c07 = "ring"
+    params = {"functions": NAMES, "n_variables": TInt, "n_couplings": TInt, "dres_dx": TRing, "dres_dy": TRing, "dfun_dx": MATS, "dfun_dy": MATS, "linear_solver": TStr}
+    returns = JACS
+    modifies = ("self",)
+    loops = {0: LoopSpec(anchor="range(n_variables)", modifies=("dy_dx", "self.linear_problem", "self"), inv=_direct_inv0),
+             1: LoopSpec(anchor="functions", modifies=("jac",), inv=_direct_inv1, local_types={"jac": JACS})}
+
+    def requires(self, c):
+        B = mterm(c.old.dres_dx)
+        return [("one-column-per-variable", z3.And(ncols(B) == c.old.n_variables, c.old.n_variables >= 0)), ("residual-rows", z3.And(nrows(B) == c.old.n_couplings, c.old.n_couplings >= 0)),
+                ("functions-have-partial-jacobians", functions_known(c, c.old.dfun_dx, c.old.dfun_dy))]
+
+    def axioms(self, c):
+        return ring_named()
+
+    def ensures(self, c):
+        A, B = mterm(c.old.dres_dy), mterm(c.old.dres_dx)
+        F, jac = c.old.functions, c.result
+        DY = mterm(c.locals["dy_dx"])
+        i = z3.Int("i!dm")
+        f = F.elems[i]
+        total = mneg(mmul(minv(A), B))
+        return [
+            ("dy_dx-is-minus-inverse-times-dres_dx", z3.Implies(ext_q(DY, total), DY == total)),
+            ("closed-form", z3.ForAll([i], z3.Implies(z3.And(in_range(i, F.n), ext_q(DY, total)), z3.And(jac.has(f), jac.vals[f] == closed_form(c.old.dfun_dx.vals[f], c.old.dfun_dy.vals[f], A, B))))),
+            ("one-resolution-per-variable", c.new.self.n_linear_resolutions == c.old.self.n_linear_resolutions + c.old.n_variables),
+        ]
